@@ -118,6 +118,7 @@ type Contract struct {
 	Uses           []string            // lemmas / axioms assumed while verifying this function
 	Dispatch       map[string][]string // interface type name -> allowed dynamic types (proved at each invoke)
 	Recovers       bool                // the function must call the builtin recover() directly (it is meant to run deferred)
+	CallsInEntry   []string            // structural: static calls that the entry block must contain
 	AlwaysSends    bool                // structural: every return is dominated by a blocking channel send of the function itself
 	StructuralOnly string              // reason why the body is not executed symbolically (only structural obligations are decided)
 	ClosureFirst   [][2]string         // (ordinal of the function literal, callee) structural obligations
@@ -591,6 +592,11 @@ func (db *SpecDB) loadText(path, text, pkgHint string) error {
 					alts = append(alts, strings.TrimSpace(a))
 				}
 				cur.Dispatch[strings.TrimSpace(rest[:col])] = alts
+			case "calls-in-entry":
+				// structural: the entry block of the body contains a static call of the named function
+				if f := strings.TrimSpace(rest); f != "" {
+					cur.CallsInEntry = append(cur.CallsInEntry, f)
+				}
 			case "always-sends":
 				cur.AlwaysSends = true
 			case "structural-only":
